@@ -258,6 +258,8 @@ type Options struct {
 	Extra     func(c *common.Check, tier string, all []Stats) // add to evidence
 	BudgetQ   time.Duration
 	BudgetT   time.Duration
+	// PassArgs are extra command-line arguments handed to worker processes.
+	PassArgs []string
 }
 
 func argValue(name string) string {
@@ -302,8 +304,24 @@ func Main(o Options) {
 		json.NewEncoder(os.Stdout).Encode(st)
 		return
 	}
+	if argValue("--emit-stats") != "" {
+		all := Collect(o, tier, cfg, scs, budget)
+		json.NewEncoder(os.Stdout).Encode(all)
+		return
+	}
 	c := common.New(o.Prop, o.Level)
 	c.Assume = o.Assume
+	all := Collect(o, tier, cfg, scs, budget)
+	Summarize(c, cfg, all, len(scs))
+	if o.Extra != nil {
+		o.Extra(c, tier, all)
+	}
+	c.Finish()
+}
+
+// Collect explores every scenario in worker processes (this binary re-invoked with
+// --scenario) and returns the per-scenario statistics.
+func Collect(o Options, tier string, cfg Config, scs []*Scenario, budget time.Duration) []Stats {
 	n := o.Workers
 	if n == 0 {
 		n = runtime.NumCPU()
@@ -331,7 +349,8 @@ func Main(o Options) {
 				if idx >= len(scs) {
 					return
 				}
-				cmd := exec.Command(os.Args[0], "--tier", tier, "--scenario", strconv.Itoa(idx), "--deadline", strconv.FormatInt(deadline.Unix(), 10))
+				args := append([]string{"--tier", tier, "--scenario", strconv.Itoa(idx), "--deadline", strconv.FormatInt(deadline.Unix(), 10)}, o.PassArgs...)
+				cmd := exec.Command(os.Args[0], args...)
 				cmd.Env = append(os.Environ(), "GOMAXPROCS=2")
 				cmd.Stderr = os.Stderr
 				out, err := cmd.StdoutPipe()
@@ -363,6 +382,11 @@ func Main(o Options) {
 	if len(all) != len(scs) {
 		common.Broken("expected %d scenario results, got %d", len(scs), len(all))
 	}
+	return all
+}
+
+// Summarize folds scenario statistics into the evidence of a check.
+func Summarize(c *common.Check, cfg Config, all []Stats, nscen int) {
 	var execs, trans, switched int64
 	exhaustive := true
 	outcomes := 0
@@ -407,16 +431,12 @@ func Main(o Options) {
 	c.Cov["distinct_outcomes_summed_over_scenarios"] = outcomes
 	c.Cov["final_state_kinds"] = kinds
 	c.Cov["exhaustive"] = exhaustive
-	c.Cov["bounds"] = map[string]any{"deviation_bound": cfg.Bound, "max_steps": cfg.MaxSteps, "scenarios": len(scs), "max_deviations_seen": maxCost}
+	c.Cov["bounds"] = map[string]any{"deviation_bound": cfg.Bound, "max_steps": cfg.MaxSteps, "scenarios": nscen, "max_deviations_seen": maxCost}
 	c.Cov["one_outcome_scenarios"] = vacuous
 	if len(perScenario) <= 60 {
 		c.Cov["per_scenario"] = perScenario
 	}
 	c.Cov["explanation"] = "stateless DFS over scheduling decisions of the real code under the controlled runtime; states = complete executions; every execution is an execution of the implementation"
-	if o.Extra != nil {
-		o.Extra(c, tier, all)
-	}
-	c.Finish()
 }
 
 func replay(o Options, scs []*Scenario, cfg Config, path string) {
